@@ -22,14 +22,14 @@ RULES = {
     "R3": "settings are read at render time: after the dummy yield, _iterate reads the mutable cells at the point of use (self._render_args, "
           "self._padding, self._padded_size, fields through the renderable-data namespace object the setters write into) - never a local/"
           "parameter snapshot taken before the yield; the first frame number is read from frame_offset after the dummy yield (a seek before "
-          "the first next() takes effect, and frames are cached under their own number)",
+          "the first next() takes effect, and frames are cached under their own number); a value captured before the first frame may be read during iteration only if its traced source depends on no cell a control method can write",
     "R4": "the iterator never moves the renderable: render/_iterator.py stores to no attribute of the renderable and uses only "
           "{animated, frame_count, _render_, _init_render_} of it",
     "R5": "one seek rule: Renderable.seek and the definite branch of RenderIterator.seek compute the target with the same expression shape and "
           "range test; the INDEFINITE branch rejects exactly START&offset<0 / END&offset>0; every accepted seek is recorded by a single "
-          "update(frame_offset=..., seek_whence=...) on every non-raising path; _iterate hands a pending seek over once",
+          "update(frame_offset=..., seek_whence=...) on every non-raising path; _iterate hands a pending seek over once (target, range test in either polarity and recorded update are found by role and compared as traced expressions / canonical boolean forms)",
     "R7": "set_padding applies from the next frame even to cached frames: the cache holds unpadded frames and the padding step runs after the "
-          "cache with the current padding (shared with C09.R2)",
+          "cache with the current padding (shared with C09.R2); shared with C09.R1/R4: a cached frame is served only if every mutable render input is unchanged",
     "R6": "the padded size is maintained: every store to self._padding or to the render size is followed in the same method by "
           "self._padded_size = self._padding.get_padded_size(<the current/new size>)",
 }
@@ -265,7 +265,12 @@ def run(ck, m):
     # ---- R7 ----------------------------------------------------------------------------
     from rules.c09 import rule_padding_after_cache
     rule_padding_after_cache(ck, m, "R7")
-
+    # ---- shared with C09.R1/R4: a cached frame is served only if every mutable render input is unchanged
+    from tiv.report import Scoped
+    import rules.c09 as c09
+    sc9 = Scoped(ck, "R7", lambda c: c.endswith("RenderIterator._iterate"), rids={"R1", "R4"})
+    c09.run(sc9, m)
+    ck.expect(sc9.kept >= 6, f"expected the frame-cache obligations of C09.R1/R4 (got {sc9.kept})")
 
 
 def rule_padded_size_maintained(ck, m, rid):
